@@ -34,13 +34,22 @@ type e4world struct {
 
 const e4ok = `{"id":"x","object":"chat.completion","model":"m","choices":[{"index":0,"message":{"role":"assistant","content":"hello"},"finish_reason":"stop"}]}`
 
-func bootE4(engine, bal string, n int) *e4world {
+func bootE4(engine, bal string, n int, narrow bool) *e4world {
 	w := &e4world{up: make([]bool, n)}
 	var eps []stack.EP
 	for i := 0; i < n; i++ {
-		b := stack.NewBackend(string(rune('A'+i)), "openai-compatible", true)
+		typ, prio := "openai-compatible", 300-100*i
+		if narrow {
+			// the last endpoint is of another provider and the one every balancer would like best; requests
+			// arrive on the ollama route, so it is never in their candidate set
+			typ = "ollama"
+			if i == n-1 {
+				typ, prio = "vllm", 900
+			}
+		}
+		b := stack.NewBackend(string(rune('A'+i)), typ, true)
 		w.bes = append(w.bes, b)
-		eps = append(eps, stack.EP{B: b, Priority: 300 - 100*i})
+		eps = append(eps, stack.EP{B: b, Type: typ, Priority: prio})
 	}
 	o, err := stack.Boot(stack.Opts{Engine: engine, Balancer: bal, Endpoints: eps, CheckInterval: time.Hour})
 	if err != nil {
@@ -83,7 +92,7 @@ func (w *e4world) reset() bool {
 	return len(w.o.HealthyNames()) == len(w.bes)
 }
 
-func e4(engine, bal string, n, depth int, idx *int) {
+func e4(engine, bal string, n, depth int, idx *int, narrow bool) {
 	vclock.SetReal()
 	vrand.SetScript(nil)
 	var w *e4world
@@ -93,7 +102,13 @@ func e4(engine, bal string, n, depth int, idx *int) {
 		}
 	}()
 	var alpha []string
-	for i := 0; i < n; i++ {
+	target := "/olla/proxy/v1/chat/completions"
+	flippable := n
+	if narrow {
+		target = "/olla/ollama/v1/chat/completions"
+		flippable = n - 1
+	}
+	for i := 0; i < flippable; i++ {
 		alpha = append(alpha, "flip"+string(rune('A'+i)))
 	}
 	alpha = append(alpha, "round", "request")
@@ -104,7 +119,7 @@ func e4(engine, bal string, n, depth int, idx *int) {
 			if w != nil {
 				w.close()
 			}
-			if w = bootE4(engine, bal, n); w == nil {
+			if w = bootE4(engine, bal, n, narrow); w == nil {
 				return
 			}
 			if !w.reset() {
@@ -114,9 +129,12 @@ func e4(engine, bal string, n, depth int, idx *int) {
 		}
 		known := make([]bool, n)
 		for i := range known {
-			known[i] = true
+			known[i] = !(narrow && i == n-1) // the foreign endpoint is never a candidate
 		}
 		name := fmt.Sprintf("engine=%s balancer=%s endpoints=%d history [%s]", engine, bal, n, strings.Join(h, " "))
+		if narrow {
+			name = fmt.Sprintf("engine=%s balancer=%s endpoints A,B (ollama) + C (vllm, preferred by the balancer), requests on /olla/ollama, history [%s]", engine, bal, strings.Join(h, " "))
+		}
 		for step, ev := range h {
 			switch {
 			case strings.HasPrefix(ev, "flip"):
@@ -128,13 +146,13 @@ func e4(engine, bal string, n, depth int, idx *int) {
 					return
 				}
 				for i := range known {
-					known[i] = w.up[i]
+					known[i] = w.up[i] && !(narrow && i == n-1)
 				}
 			case ev == "request":
 				for _, b := range w.bes {
 					b.Reset()
 				}
-				r := stack.Do(w.o.Addr, &stack.Req{Method: "POST", Target: "/olla/proxy/v1/chat/completions", Body: []byte(`{"messages":[{"role":"user","content":"hi"}]}`),
+				r := stack.Do(w.o.Addr, &stack.Req{Method: "POST", Target: target, Body: []byte(`{"messages":[{"role":"user","content":"hi"}]}`),
 					Headers: [][2]string{{"Content-Type", "application/json"}}, Timeout: 10 * time.Second})
 				res.Add("evaluations", 1)
 				res.Add("transitions", 1)
@@ -144,10 +162,10 @@ func e4(engine, bal string, n, depth int, idx *int) {
 					if k > 0 {
 						got = append(got, fmt.Sprintf("%s x%d", b.Name, k))
 					}
-					rp := map[string]any{"engine": "ops-stack", "world": engine + "/" + bal, "endpoints": n, "history": h[:step+1]}
+					rp := map[string]any{"engine": "ops-stack", "world": engine + "/" + bal, "endpoints": n, "narrow": narrow, "history": append([]string{}, h[:step+1]...)}
 					if k > 0 && !known[i] {
 						violate("traffic-to-ineligible-endpoint", map[string]any{"part": "E4", "strategy": bal},
-							fmt.Sprintf("%s: at step %d the request was dispatched to %s although the last completed update (forced health round or failed attempt) left it out of rotation; repository now says %v\nclient: %s",
+							fmt.Sprintf("%s: at step %d the request was dispatched to %s although it is not in the request's candidate set or the last completed update (forced health round or failed attempt) left it out of rotation; repository now says %v\nclient: %s",
 								name, step+1, b.Name, w.o.Status(), r), rp)
 						return
 					}
@@ -160,7 +178,7 @@ func e4(engine, bal string, n, depth int, idx *int) {
 					}
 				}
 				if r.TimedOut {
-					violate("request-hangs", map[string]any{"part": "E4"}, name+": no answer within 10 s", map[string]any{"engine": "ops-stack", "history": h[:step+1]})
+					violate("request-hangs", map[string]any{"part": "E4"}, name+": no answer within 10 s", map[string]any{"engine": "ops-stack", "history": append([]string{}, h[:step+1]...)})
 					return
 				}
 				sort.Strings(got)
